@@ -128,6 +128,53 @@ def small_programs(r):
     return [(gen.tt(p), gen.tt(e)) for p, e in P]
 
 
+def composed_programs(r, n):
+    """values COMPUTED by one operator (so that they live in the allocator in whatever form that operator
+    leaves them: empty substring views, heap copies of small integers, sign-padded or zero results,
+    one-byte views) flowing into every consumer that inspects a value (truth tests, equality, integer and
+    length readers, list readers, paths, apply). Targets reads that depend on how an atom is stored."""
+    s5 = b"hello"
+    big = bytes(range(1, 40))
+    producers = [
+        # nil in many forms
+        op(12, q(s5), q(i2a(2)), q(i2a(2))), op(12, q(s5), q(i2a(5))), op(12, q(b"\xff"), q(i2a(1))), op(12, q(b"\x00\x05"), q(i2a(2))),
+        op(12, q(big), q(i2a(7)), q(i2a(7))), op(12, q(b"hi"), q(i2a(1)), q(i2a(1))), op(12, q(b""), q(b"")),
+        op(14), op(14, q(b""), q(b"")), op(17, q(i2a(5)), q(i2a(5))), op(16), op(26, q(i2a(77)), q(i2a(77))),
+        op(18, q(b""), q(i2a(9))), op(23, q(i2a(1)), q(i2a(-1))), op(22, q(i2a(1)), q(i2a(-9))), op(32, q(i2a(1))),
+        op(R, q(lst(i2a(1)))), op(24, q(i2a(5)), q(i2a(2))), op(61, q(i2a(10)), q(i2a(5))), op(19, q(i2a(1)), q(i2a(5))),
+        # zero-like but not nil
+        op(12, q(b"a\x00b"), q(i2a(1)), q(i2a(2))), op(14, q(b"\x00")), op(14, q(b""), q(b"\x00"), q(b"")), op(14, q(b"\x00"), q(b"\x00")),
+        # small integers produced on the heap / as views / with boundary sizes
+        op(12, q(s5), q(i2a(1)), q(i2a(2))), op(14, q(i2a(1))), op(14, q(b"\x00"), q(b"\x80")), op(14, q(b"\x00\x80"), q(b"\x00\x00")),
+        op(14, q(b"\x03\xff"), q(b"\xff\xff")), op(14, q(b"\x04"), q(b"\x00\x00\x00")), op(14, q(b"\x00\x00"), q(b"\x01")),
+        op(16, q(i2a(100)), q(i2a(28))), op(16, q(i2a(0x3ffffff)), q(i2a(1))), op(17, q(i2a(0x4000000)), q(i2a(1))),
+        op(18, q(i2a(0x2000)), q(i2a(0x2000))), op(23, q(i2a(1)), q(i2a(25))), op(23, q(i2a(1)), q(i2a(26))), op(17, q(b""), q(i2a(1))),
+        op(12, q(big), q(i2a(0)), q(i2a(1))), op(12, q(big), q(i2a(1)), q(i2a(2))), op(12, q(big), q(i2a(35)), q(i2a(36))),
+        op(13, q(s5)), op(13, q(big)), op(EQ, q(s5), q(s5)), op(L, q(lst(i2a(1)))), op(33, q(b""), q(i2a(1))), op(34, q(i2a(1)), q(i2a(1))),
+        op(11, q(b"")),
+    ]
+    env = lst(i2a(5), lst(i2a(7), i2a(8)), b"hello", i2a(1), term=i2a(99))
+
+    def consumers(P):
+        one, two = q(i2a(1)), q(i2a(2))
+        return [
+            op(I, P, one, two), op(32, P), op(33, P), op(33, q(b""), P), op(34, P), op(34, one, P), op(33, P, P), op(34, P, P),
+            op(EQ, P, q(b"")), op(EQ, q(b""), P), op(EQ, P, P), op(EQ, P, q(b"\x00")), op(EQ, P, q(b"e")), op(EQ, q(i2a(128)), P),
+            op(EQ, P, q(b"\x00\x80\x00\x00")), op(EQ, q(b"\x03\xff\xff\xff")), op(EQ, P, q(b"\x04\x00\x00\x00")), op(EQ, P, one),
+            op(L, P), op(13, P), op(16, P, one), op(17, one, P), op(18, P, P), op(21, P, one), op(21, one, P), op(20, two, P), op(19, q(i2a(7)), P),
+            op(14, P, P), op(14, q(b"x"), P, q(b"y")), op(11, P), op(11, P, P), op(C, P, P), op(F, op(C, P, one)), op(12, q(b"abcdef"), P),
+            op(12, q(b"abcdef"), one, P), op(12, P, q(b"")), op(23, one, P), op(23, P, one), op(22, P, one), op(24, P, one), op(25, P, one), op(27, P),
+            op(A, P, i2a(1)), op(A, one, P), op(A, q(i2a(1)), op(C, P, q(b""))), op(A, q(op(I, i2a(2), one, two)), op(C, P, q(b""))),
+            op(X, P), op(F, P), op(R, P), op(SOFTFORK, P), op(SOFTFORK, q(i2a(200)), P), op(SOFTFORK, P, q(b"")),
+            op(A, q(op(A, P, i2a(1))), q(env)), op(63, op(C, P, P)), op(60, q(i2a(7)), P, q(i2a(13))), op(60, P, two, q(i2a(13))),
+        ]
+    progs = []
+    for P in producers:
+        progs.extend(consumers(P))
+    progs = r.sample(progs, min(n, len(progs)))
+    return [(gen.tt(p), gen.tt(env)) for p in progs]
+
+
 UNKNOWN_OPCODES = None
 
 
